@@ -29,7 +29,7 @@ META = {
     },
 }
 RANDOM = {'quick': 1600, 'thorough': 120000}
-SECONDS = {'quick': 60, 'thorough': 1500}
+SECONDS = {'quick': 60, 'thorough': 600}
 KINDS12 = [(t, v, n) for t in ('or', 'and', 'defense0', 'defense1') for v in (True, False) for n in (True, False)]
 
 
